@@ -1111,6 +1111,56 @@ Record rrstate := mkrr {
   rr_last : option name; rr_lttl : Z; rr_lttl_known : bool; rr_dttl : Z; rr_dttl_known : bool;
   rr_store : rrstore }.
 
+(* the part of _rr_line after the owner name, with the RRsets transaction *)
+Definition rrs_fields (c : cfg) (zo : name) (s : rrstate) (last : option name) (n : name)
+           (toks1 : list tok) (lerr : bool) : res rrstate :=
+  (* TTL *)
+  do (v1, r1) <- get_ident toks1;
+  let '(ttl, lt, ltk, toksa) :=
+    match ttl_from_text v1 with
+    | Ok t => (Some t, t, true, r1)
+    | _ => (None, rr_lttl s, rr_lttl_known s, toks1)
+    end in
+  (* class *)
+  do (v2, r2) <- get_ident toksa;
+  let '(cls, toksb) :=
+    match class_from_text v2 with
+    | Some k => (k, r2)
+    | None => (c_class c, toksa)
+    end in
+  if negb (cls =? c_class c) then Lib eSyntax
+  else
+    do (ttl, lt, ltk, toksc) <-
+       (match ttl with
+        | Some t => Ok (Some t, lt, ltk, toksb)
+        | None =>
+            do (v3, r3) <- get_ident toksb;
+            match ttl_from_text v3 with
+            | Ok t => Ok (Some t, t, true, r3)
+            | _ => Ok ((if rr_dttl_known s then Some (rr_dttl s)
+                        else if ltk then Some lt else None), lt, ltk, toksb)
+            end
+        end);
+    do (v4, toksd) <- get_ident toksc;
+    match type_from_text v4 with
+    | None => Lib eSyntax
+    | Some ty =>
+        do rd <- parse_rdata ty toksd lerr zo (c_rel c) zo;
+        let '(ttl, dt, dtk) :=
+          if negb (rr_dttl_known s) && (ty =? tSOA) then
+            match nth_error rd 6 with
+            | Some (VInt m) => ((match ttl with Some t => Some t | None => Some m end), m, true)
+            | _ => (ttl, rr_dttl s, rr_dttl_known s)
+            end
+          else (ttl, rr_dttl s, rr_dttl_known s) in
+        match ttl with
+        | None => Lib eSyntax
+        | Some t =>
+            do st' <- rrs_add zo (c_rel c) (rr_store s) n t ty rd;
+            Ok (mkrr last lt ltk dt dtk st')
+        end
+    end.
+
 (* _rr_line with the RRsets transaction (origin co = zone origin zo, never changed) *)
 Definition rrs_line (c : cfg) (zo : name) (s : rrstate) (lead : bool) (toks : list tok) (lerr : bool)
   : res rrstate :=
@@ -1134,52 +1184,7 @@ Definition rrs_line (c : cfg) (zo : name) (s : rrstate) (lead : bool) (toks : li
         if negb (is_subdomain name zo) then (if lerr then Lib eSyntax else Ok s0)
         else
           do n <- (if c_rel c then lift_name true (relativize name zo) else Ok name);
-          (* TTL *)
-          do (v1, r1) <- get_ident toks1;
-          let '(ttl, lt, ltk, toksa) :=
-            match ttl_from_text v1 with
-            | Ok t => (Some t, t, true, r1)
-            | _ => (None, rr_lttl s, rr_lttl_known s, toks1)
-            end in
-          (* class *)
-          do (v2, r2) <- get_ident toksa;
-          let '(cls, toksb) :=
-            match class_from_text v2 with
-            | Some k => (k, r2)
-            | None => (c_class c, toksa)
-            end in
-          if negb (cls =? c_class c) then Lib eSyntax
-          else
-            do (ttl, lt, ltk, toksc) <-
-               (match ttl with
-                | Some t => Ok (Some t, lt, ltk, toksb)
-                | None =>
-                    do (v3, r3) <- get_ident toksb;
-                    match ttl_from_text v3 with
-                    | Ok t => Ok (Some t, t, true, r3)
-                    | _ => Ok ((if rr_dttl_known s then Some (rr_dttl s)
-                                else if ltk then Some lt else None), lt, ltk, toksb)
-                    end
-                end);
-            do (v4, toksd) <- get_ident toksc;
-            match type_from_text v4 with
-            | None => Lib eSyntax
-            | Some ty =>
-                do rd <- parse_rdata ty toksd lerr zo (c_rel c) zo;
-                let '(ttl, dt, dtk) :=
-                  if negb (rr_dttl_known s) && (ty =? tSOA) then
-                    match nth_error rd 6 with
-                    | Some (VInt m) => ((match ttl with Some t => Some t | None => Some m end), m, true)
-                    | _ => (ttl, rr_dttl s, rr_dttl_known s)
-                    end
-                  else (ttl, rr_dttl s, rr_dttl_known s) in
-                match ttl with
-                | None => Lib eSyntax
-                | Some t =>
-                    do st' <- rrs_add zo (c_rel c) (rr_store s) n t ty rd;
-                    Ok (mkrr last lt ltk dt dtk st')
-                end
-            end
+          rrs_fields c zo s last n toks1 lerr
     end.
 
 Fixpoint rrs_loop (fuel : nat) (c : cfg) (zo : name) (s : rrstate) (text : list Z) : res rrstate :=
